@@ -177,7 +177,7 @@ func genLoop(blocked bool) *rapid.Generator[Loop] {
 			l.Extra = append(l.Extra, rapid.SampledFrom([]int{0, 0, 1, 2, 3, 4}).Draw(t, "extra"))
 		}
 		if blocked {
-			l.Blocked = rapid.SampledFrom([]string{"handler-bind", "ignore-errors", "load-string", "macro-expansion", "and"}).Draw(t, "blocked")
+			l.Blocked = rapid.SampledFrom([]string{"handler-bind", "ignore-errors", "load-string", "macro-expansion", "and", "handler-retry", "handler-retry"}).Draw(t, "blocked")
 			l.BlockAt = rapid.IntRange(0, l.NFun-1).Draw(t, "blockat")
 		}
 		return l
@@ -263,6 +263,11 @@ func (l Loop) source(n int) string {
 			// whose call sits in tail position
 			fmt.Fprintf(&b, "(defmacro via%d () (%s gn gacc))\n", i, next)
 			call = fmt.Sprintf("(progn (set 'gn %s) (set 'gacc %s) (via%d))", A, B, i)
+		} else if l.Blocked == "handler-retry" && l.BlockAt == i {
+			// a retry loop: the HANDLER makes the next call, after the protected
+			// form has failed.  The handler runs inside the handler-bind, so
+			// the call is never collapsed -- and (rethrow) still works in it.
+			call = fmt.Sprintf("(handler-bind ((retry (lambda (c &rest d) (probe 'r d) %s))) (error 'retry n))", call)
 		} else if l.Blocked == "load-string" && l.BlockAt == i {
 			call = fmt.Sprintf("(progn (set 'gn %s) (set 'gacc %s) (load-string \"(%s gn gacc)\"))", A, B, next)
 		} else if l.Blocked != "" && l.BlockAt == i {
@@ -361,6 +366,34 @@ func checkLoop(l Loop, c *vcommon.Ctx) *vcommon.Failure {
 			return vcommon.Failf("loop/value", "loop of %d iterations returned %s, want %s\n%s", r.n, r.r.out.Canon, want, l.source(r.n))
 		}
 	}
+	// (a') the LOGICAL height a collapsed loop reports (the frames it elided
+	// included) never exceeds the height the same program really reaches
+	// without elimination: under the smallest logical limit that the
+	// un-eliminated run fits, the eliminated run gives the same result
+	if l.Blocked == "" && l.K%3 == 0 {
+		fits := func(kind string, limit int) (bool, vcommon.Outcome) {
+			cl := cfg(kind)
+			cl.MaxLogical = limit
+			rt := vcommon.NewRuntime(cl)
+			o := rt.Load(s1)
+			return outcome(o) == outcome(r1.out), o
+		}
+		lo, hi := 1, 20000 // invariant: the debugger run fails at lo-1 (or lo == 1), fits at hi
+		if ok, _ := fits("debugger", hi); ok {
+			for lo < hi {
+				mid := (lo + hi) / 2
+				if ok, _ := fits("debugger", mid); ok {
+					hi = mid
+				} else {
+					lo = mid + 1
+				}
+			}
+			if ok, o := fits("default", hi); !ok {
+				return vcommon.Failf("logical-height/over-counted", "without elimination the program fits a logical stack limit of %d, yet with elimination under the same limit it ends with %s (%s) instead of %s\n%s", hi, outcome(o), o.Msg, outcome(r1.out), s1)
+			}
+			c.Class("logical-limit-at-real-height")
+		}
+	}
 	switch l.Blocked {
 	case "":
 		// (b) constant stack: the maximum observed frame count does not grow
@@ -371,7 +404,7 @@ func checkLoop(l Loop, c *vcommon.Ctx) *vcommon.Failure {
 		if p1, p2 := r1.prof, r2.prof; p1 != nil && p2 != nil && !limitHit(p1.out) && !limitHit(p2.out) && p2.maxH != p1.maxH {
 			return vcommon.Failf("stack/grows-with-profiler", "with a profiler attached the tail loop's stack height grows with the iteration count: max %d frames at n=%d, %d at n=%d\n%s", p1.maxH, n1, p2.maxH, n2, s2)
 		}
-	case "handler-bind", "ignore-errors", "load-string", "macro-expansion":
+	case "handler-bind", "ignore-errors", "load-string", "macro-expansion", "handler-retry":
 		// (c) never collapsed: at least one frame per extra turn of the cycle
 		turns := (n2 - n1) / l.NFun
 		if r2.maxH-r1.maxH < turns {
